@@ -207,7 +207,7 @@ def main():
         if os.path.isdir(corpus_dir):
             for f in sorted(os.listdir(corpus_dir)):
                 b = json.load(open(os.path.join(corpus_dir, f)))
-                cc = dict(lines=b['script'], pool=b.get('pool') or 'int', tag='corpus ' + f, vr_eps=b.get('vr_eps'))
+                cc = dict(lines=b['script'], pool=b.get('pool') or 'int', tag='corpus ' + f, vr_eps=b.get('vr_eps'), corpus=True)
                 if b.get('cmp'):
                     cc['cmp'] = {int(k): v for k, v in b['cmp'].items()}
                 corpus.append(cc)
@@ -280,6 +280,14 @@ def main():
                          dict(note='model and implementation disagree on this script; the property oracles found no failing input on %d further cases' % searched,
                               disagreeing_cases=len(corr)))
         lines.append('VIOLATION property=%s replay=%s no-failing-input-found' % (pid, p)); nviol += 1
+    elif [h for h in harness_errors if h.get('case')]:
+        # a script could not be run, or one of its oracles could not be evaluated, against this implementation.
+        # On the unchanged tree every script runs and every oracle evaluates (that is checked for every seed used
+        # in development), so this is reported as a violation with the script as the input to look at.
+        f = [h for h in harness_errors if h.get('case')][0]
+        p = write_replay(pid, tier, seed, 'impl-violation', dict(tag=f.get('tag'), case=f['case'], oracle=[[0, 'script', 'FAIL ' + str(f.get('error'))[-600:]]]),
+                         dict(note='the script could not be evaluated against the implementation: ' + str(f.get('error'))[-600:]))
+        lines.append('VIOLATION property=%s replay=%s' % (pid, p)); nviol += 1
     elif proof_problems:
         p = write_replay(pid, tier, seed, 'proof', dict(tag='proof obligation', case=None),
                          dict(theorem=proof_problems, note='a theorem registered for this property no longer checks; no failing input found on %d further cases' % searched))
